@@ -112,6 +112,13 @@ theorem cli_complete_blocks (a b : Arg) (nx : List NxDraw) (e : Option CG) (fuel
           omega
         simp [this]
 
+example : ∃ S, constructNx .completeS [⟨some 2, some (2, 1)⟩, ⟨some 3, some (3, 1)⟩] [] none 0 [] = .ok (.simple S) [] ∧
+    S.n = 6 := by
+  rcases cli_complete_blocks ⟨some 2, some (2, 1)⟩ ⟨some 3, some (3, 1)⟩ [] none 0 [] with
+    ⟨n, k, S, h1, h2, _, _, _, h6, _, _, h9⟩ | ⟨h, _⟩
+  · cases h1; cases h2; exact ⟨S, h9, h6⟩
+  · exact absurd ⟨2, 3, rfl, rfl, by decide, by decide⟩ h
+
 theorem gnmGuard_nat {n m : Int} (h : gnmGuard n m = true) :
     0 < n ∧ 0 ≤ m ∧ 2 * m.toNat ≤ n.toNat * (n.toNat - 1) := by
   simp only [gnmGuard, Bool.and_eq_true, decide_eq_true_eq] at h
@@ -125,6 +132,8 @@ theorem gnmGuard_nat {n m : Int} (h : gnmGuard n m = true) :
     rw [Int.natCast_mul, Int.natCast_sub hN]; rfl
   rw [hcast] at h3
   omega
+
+example : gnmGuard 5 10 = true := by decide
 
 /-- `gnm N m` on the command line, for EVERY pair of tokens and EVERY draw list of networkx: a run that
 returns has `N > 0`, `0 ≤ m ≤ N(N-1)/2`, consumed none of cnfgen's own draws, and returns a graph object
@@ -161,6 +170,10 @@ theorem cli_gnm (a b : Arg) (nx : List NxDraw) (e : Option CG) (fuel : Nat) (ds 
           intro G rest h
           cases h
           exact ⟨n, m, S, rfl, rfl, hg, rfl, rfl, s2, s4, s5, s3⟩
+
+example : ∃ S, constructNx .gnm [⟨some 4, some (4, 1)⟩, ⟨some 2, some (2, 1)⟩]
+    [.choice 0, .choice 0, .choice 1, .choice 2, .choice 2, .choice 1, .choice 3, .choice 0] none 0 [] = .ok (.simple S) [] :=
+  ⟨_, rfl⟩
 
 /-- `gnp N p` on the command line (two tokens: `t = 1`), for EVERY pair of tokens and EVERY draw list of
 networkx: a run that returns has `N > 0`, `0 ≤ p ≤ 1`, and returns the value of
@@ -199,6 +212,10 @@ theorem cli_gnp (a p : Arg) (nx : List NxDraw) (e : Option CG) (fuel : Nat) (ds 
             cases h
             exact ⟨n, pn, pd, S, rest', rfl, rfl, hg, rfl, rfl, hs⟩
 
+example : ∃ S, constructNx .gnp [⟨some 3, some (3, 1)⟩, ⟨none, some (1, 2)⟩]
+    [.unit 0, .unit (Nx.unitDen - 1), .unit 5] none 0 [] = .ok (.simple S) [] :=
+  ⟨_, rfl⟩
+
 theorem gndGuard_nat {n d : Int} (h : gndGuard n d = true) (ho : gndOdd n d = false) :
     0 < d ∧ d < n ∧ (n.toNat * d.toNat) % 2 = 0 ∧ nxRegularPre d n = true := by
   simp only [gndGuard, Bool.and_eq_true, decide_eq_true_eq] at h
@@ -212,6 +229,8 @@ theorem gndGuard_nat {n d : Int} (h : gndGuard n d = true) (ho : gndOdd n d = fa
   · simp only [Int.toNat_natCast]; omega
   · simp only [nxRegularPre, Bool.and_eq_true, beq_iff_eq, decide_eq_true_eq]
     rw [hcast]; omega
+
+example : gndGuard 6 3 = true ∧ gndOdd 6 3 = false := by decide
 
 /-- `gnd N d` on the command line, for EVERY pair of tokens and EVERY list of shuffles networkx asks
 for: a run that returns has `N > d > 0`, `N·d` even, consumed none of cnfgen's own draws, and returns a
@@ -253,5 +272,9 @@ theorem cli_gnd (a b : Arg) (nx : List NxDraw) (e : Option CG) (fuel : Nat) (ds 
             intro G rest h
             cases h
             exact ⟨n, d, S, rfl, rfl, g1, g2, rfl, rfl, s2, s3, fun v h1 h2 => (s4 v h1 h2).1, s5⟩
+
+example : ∃ S, constructNx .gnd [⟨some 4, some (4, 1)⟩, ⟨some 2, some (2, 1)⟩]
+    [.shuffle [0, 1, 2, 3, 0, 1, 2, 3] [0, 1, 1, 2, 2, 3, 3, 0]] none 0 [] = .ok (.simple S) [] :=
+  ⟨_, rfl⟩
 
 end Cnfgen.C15
